@@ -188,9 +188,9 @@ theorem version_reply_needs_no_query (m : Msg) (v : Ver) (w : W) (h : getProtoco
   have he : getProtocolE m.payload = .ok v := by
     unfold getProtocol? at h
     unfold getProtocolE
-    cases hp : verParse? m.payload with
-    | none => simp [hp] at h
-    | some p => simpa [hp] using h
+    cases hp : getProtocolX m.payload with
+    | error e => simp [hp] at h
+    | ok p => simpa [hp] using h
   simp [hVersion, convertExn, he, M.bind, M.pure, M.seq, M.modifySt]
 
 /-! ### The reactions, one by one (no write faults) -/
